@@ -15,7 +15,7 @@ PROP = {
                     "reflexivity excludes NaN and closures (clean_val), as the property does",
                     "a caught error text handed to a catch closure (VErrText) is outside the theorems (is_errtext = false)"],
     "residue": "",
-    "correspondence_only": ["order / sort.Sort: the sequence of comparisons made by Go's sort is not modelled; order's output is judged by the verified-by-construction checker order_allowed (permutation + no inversion w.r.t. the exact order, error iff two elements are incomparable) and by the same law on the implementation's own < answers",
+    "correspondence_only": ["order: List.Order + sort.Sort is modelled for at most 12 elements (where Go's pdqsort is the insertion sort) in Run/C14Run.v order_model and compared case by case; no theorem about it: its output is judged by the checker order_allowed (permutation + no inversion w.r.t. the exact order, error iff two elements are incomparable) and by the same law on the implementation's own < answers",
                             "switch: the case loop of GenerateFunc is modelled in Run/C14Run.v (switch_model over equal_fg); the theorem states only that equal_fg is veq",
                             "representation independence of = and ~ (lists eager/lazy/append/concat, maps listmap/real/put) is observed on the pool, not proved (C09/C13)"],
 }
